@@ -13,11 +13,10 @@ def setup(w):
 def harnesses(tier):
     fns = ["yash_env::stack::Stack::loop_count", "yash_builtin::break::semantics::run", "yash_builtin::continue::semantics::run"]
     b = "stack of %s frames (length arm-concrete, each frame kind of 7 symbolic); requested count: all usize"
-    hs = [
-        Harness("c02_loop_levels_0_3", b % "0-3", fns, "break/continue level = enclosing loops in the current context, capped; error iff none", timeout=900),
-        Harness("c02_loop_levels_4", b % "4", fns, "same, depth 4", timeout=900),
-        Harness("c02_loop_levels_5", b % "5", fns, "same, depth 5", timeout=1200),
-    ]
+    hs = [Harness("c02_loop_levels_%d" % n, b % str(n), fns,
+                  "break/continue level = enclosing loops in the current context, capped; error iff none",
+                  timeout=1200, cover_group="c02_loops", recursion_bounds=core.LOCATION_RECURSION)
+          for n in range(0, 6 if tier == "thorough" else 5)]
     return hs
 
 
